@@ -1,0 +1,165 @@
+//! Verification hooks (cargo feature `verif`, off by default).
+//!
+//! Nothing in this module changes the behaviour of the library: it only exposes
+//! a few private building blocks (packet builder, block partitioning, NTP
+//! conversion) so that they can be evaluated directly, a thread-local *step
+//! budget* that turns an endless loop into a deterministic panic, and plain
+//! counters describing the memory held by a receiver.
+
+use crate::common::{alc, lct, oti, partition, pkt, Profile};
+use std::cell::Cell;
+use std::time::SystemTime;
+
+thread_local! {
+    static BUDGET: Cell<u64> = const { Cell::new(u64::MAX) };
+    static USED: Cell<u64> = const { Cell::new(0) };
+}
+
+/// Arm the step budget of the current thread: after `budget` calls to [`step`]
+/// the next one panics. `u64::MAX` disarms it.
+pub fn arm(budget: u64) {
+    BUDGET.with(|b| b.set(budget));
+    USED.with(|u| u.set(0));
+}
+
+/// Disarm the step budget of the current thread
+pub fn disarm() {
+    BUDGET.with(|b| b.set(u64::MAX));
+}
+
+/// Number of steps consumed since the last call to [`arm`]
+pub fn used() -> u64 {
+    USED.with(|u| u.get())
+}
+
+/// Called at the head of every loop of the library whose number of iterations
+/// is not bounded by construction.
+#[inline]
+pub fn step(site: &'static str) {
+    let used = USED.with(|u| {
+        let v = u.get().wrapping_add(1);
+        u.set(v);
+        v
+    });
+    let budget = BUDGET.with(|b| b.get());
+    if used > budget {
+        // disarm first so that unwinding code (Drop impls) can run
+        disarm();
+        panic!("VERIF-STEP-BUDGET exhausted at {}", site);
+    }
+}
+
+/// Fields of an ALC/LCT packet, see `common::pkt::Pkt`
+#[derive(Debug, Clone)]
+pub struct PktFields {
+    /// encoding symbol(s)
+    pub payload: Vec<u8>,
+    /// transfer length announced in EXT_FTI
+    pub transfer_length: u64,
+    /// encoding symbol id
+    pub esi: u32,
+    /// source block number
+    pub sbn: u32,
+    /// transport object identifier
+    pub toi: u128,
+    /// FDT instance id (mandatory when toi == 0)
+    pub fdt_id: Option<u32>,
+    /// content encoding
+    pub cenc: lct::Cenc,
+    /// add EXT_CENC
+    pub inband_cenc: bool,
+    /// close object flag (B)
+    pub close_object: bool,
+    /// source block length (FEC 129 payload id)
+    pub source_block_length: u32,
+    /// add EXT_TIME with the sender current time
+    pub sender_current_time: bool,
+}
+
+/// Build an ALC/LCT packet with the private packet builder of the sender
+pub fn new_alc_pkt(
+    oti: &oti::Oti,
+    cci: &u128,
+    tsi: u64,
+    fields: &PktFields,
+    profile: Profile,
+    now: SystemTime,
+) -> Vec<u8> {
+    let pkt = pkt::Pkt {
+        payload: fields.payload.clone(),
+        transfer_length: fields.transfer_length,
+        esi: fields.esi,
+        sbn: fields.sbn,
+        toi: fields.toi,
+        fdt_id: fields.fdt_id,
+        cenc: fields.cenc,
+        inband_cenc: fields.inband_cenc,
+        close_object: fields.close_object,
+        source_block_length: fields.source_block_length,
+        sender_current_time: fields.sender_current_time,
+    };
+    alc::new_alc_pkt(oti, cci, tsi, &pkt, profile, now)
+}
+
+/// Build a close-session packet with the private packet builder of the sender
+pub fn new_alc_pkt_close_session(cci: &u128, tsi: u64) -> Vec<u8> {
+    alc::new_alc_pkt_close_session(cci, tsi)
+}
+
+/// `common::partition::block_partitioning`
+pub fn block_partitioning(b: u64, l: u64, e: u64) -> (u64, u64, u64, u64) {
+    partition::block_partitioning(b, l, e)
+}
+
+/// `common::partition::block_length`
+pub fn block_length(a_large: u64, a_small: u64, nb_a_large: u64, l: u64, e: u64, sbn: u32) -> u64 {
+    partition::block_length(a_large, a_small, nb_a_large, l, e, sbn)
+}
+
+/// `tools::system_time_to_ntp`
+pub fn system_time_to_ntp(time: SystemTime) -> crate::error::Result<u64> {
+    crate::tools::system_time_to_ntp(time)
+}
+
+/// `tools::ntp_to_system_time`
+pub fn ntp_to_system_time(ntp: u64) -> crate::error::Result<SystemTime> {
+    crate::tools::ntp_to_system_time(ntp)
+}
+
+/// Memory related counters of one object being received
+#[derive(Debug, Clone, Default)]
+pub struct ObjectStats {
+    /// TOI
+    pub toi: u128,
+    /// number of packets waiting in the cache (object not yet decodable)
+    pub cached_packets: usize,
+    /// bytes of the packets waiting in the cache
+    pub cached_bytes: usize,
+    /// value of the internal cache size counter
+    pub cache_size_counter: usize,
+    /// configured maximum
+    pub max_size_allocated: usize,
+    /// number of block decoders allocated and not yet written
+    pub nb_allocated_blocks: usize,
+    /// bytes of the blocks allocated and not yet written
+    pub total_allocated_blocks_size: usize,
+    /// number of entries of the block list
+    pub nb_blocks: usize,
+}
+
+/// Memory related counters of one session (one TSI on one endpoint)
+#[derive(Debug, Clone, Default)]
+pub struct ReceiverStats {
+    /// TSI
+    pub tsi: u64,
+    /// objects being received
+    pub objects: Vec<ObjectStats>,
+    /// number of completed objects remembered
+    pub objects_completed: usize,
+    /// number of objects in error remembered
+    pub objects_error: usize,
+    /// FDT instances being received (not complete)
+    pub fdt_receivers: usize,
+    /// complete FDT instances kept
+    pub fdt_current: usize,
+}
